@@ -137,7 +137,7 @@ pub assume_specification [ usize::trailing_zeros ] (n: usize) -> (r: u32) ensure
 // R13
 #[verifier::external_body] fn vx_none_vec<T>(n: usize) -> (r: Vec<Option<T>>) ensures r@.len() == n, forall|i: int| 0 <= i < n ==> r@[i] is None { (0..n).map(|_| None).collect() }
 // R15: `(new_size as f64 * LOAD_FACTOR) as usize`
-#[verifier::external_body] fn vx_load_threshold(n: usize) -> (r: usize) ensures r == n * 3 / 4 { (n as f64 * 0.75) as usize }
+#[verifier::external_body] fn vx_load_threshold(n: usize) -> (r: usize) requires n <= 0x8_0000_0000_0000 /* 2^51: KX shim_fi_load_threshold_upto_2_51; false above */ ensures r == n * 3 / 4 { (n as f64 * 0.75) as usize }
 
 #[verifier::external_body]
 fn hash_item<T: Hash>(item: &T) -> (r: u64) ensures r == hash_spec(*item) { unimplemented!() }
